@@ -45,7 +45,7 @@ PROPS['C11'] = {
 
 PROPS['C04'] = {
     'title': 'Filters, iteration and aggregates follow set semantics over live rows',
-    'modules': ['ColumnVerif.Props.C04'],
+    'modules': ['ColumnVerif.Props.C04', 'ColumnVerif.Props.C04chain'],
     'runs': [{'mode': 'store'}],
     'trusted_base': STORE_TB,
     'assumptions': [
@@ -53,7 +53,7 @@ PROPS['C04'] = {
         "float Sum/Avg/Min/Max are compared only on exactly representable small integers (SIMD kernels reorder additions)",
         "Union after a missing name / first-call Union with a missing first name: finding D22 (KNOWN_FINDINGS.json); the theorem states the behaviour of the code and the counterexample",
     ],
-    'level_text': "Lean theorems over the executable filter model: With/Without/Union/WithUnion/typed value filters/WithValue equal the pointwise set algebra over the selection for every selection length, every number of column chunks and missing names; the chunk loop 0..len>>8 reaches every bit; Count = number of rows Range visits; Range visits exactly the selected offsets, ascending, each once; aggregates fold exactly the selected rows holding a value. Tied to the code by differential filter chains over random layouts (sparse, dense, multi-chunk, reused offsets) and all numeric types.",
+    'level_text': "Lean theorems over the executable filter model: With/Without/Union/WithUnion/typed value filters/WithValue equal the pointwise set algebra over the selection for every selection length, every number of column chunks and missing names; the chunk loop 0..len>>8 reaches every bit; Count = number of rows Range visits; Range visits exactly the selected offsets, ascending, each once; aggregates fold exactly the selected rows holding a value; and for whole chains of any length (the interpreter Txn.chain which the driver runs for every select): the selection after the chain is the fold of the operators' set-algebra denotations, guarded by 'no operator reached Clear()', with Count and Range of the chain as corollaries (chain_sem, chain_den_fresh, chain_count, chain_range). Tied to the code by differential filter chains over random layouts (sparse, dense, multi-chunk, reused offsets) and all numeric types.",
     'technique': 'Lean 4 proof (pointwise semantics of every operator, induction over name lists and chunk loops) + model/implementation correspondence',
     'design_ref': '§6 C04',
 }
@@ -222,7 +222,7 @@ PROPS['C06'] = {
 
 PROPS['C13'] = {
     'title': 'Truncated snapshot or log files never restore silently wrong state',
-    'modules': ['ColumnVerif.Props.C13', 'ColumnVerif.Props.C13skel'],
+    'modules': ['ColumnVerif.Props.C13', 'ColumnVerif.Props.C07wire', 'ColumnVerif.Props.C13skel'],
     'runs': [{'mode': 'trunc'}, {'mode': 'codec'}],
     'skeleton': True,
     'trusted_base': TB_COMMON + [SKEL_TB,
@@ -230,10 +230,10 @@ PROPS['C13'] = {
         "modelled from its source: kelindar/iostream primitives (uvarint, little-endian ints, length-prefixed bytes)"],
     'assumptions': [
         "the model reads a source whose failing read has exhausted it (true for every prefix of a valid stream); malformed (not truncated) streams are outside",
-        "the per-chunk state section (readState) is covered byte-exactly by the Buffer.ReadFrom prefix lemma and by the exhaustive cut oracle on the implementation, not by a theorem of its own",
+        "the state section (writeState/readState) has its own byte-exact model (Model/StateWire, tied by the statehash op of the store correspondence) and prefix theorem (C07wire.state_prefix_fails: every strict prefix is rejected); the s2 layer around it is the validated assumption above",
         "observation (proved as an example): with a clean end, a log cut between two primitives of a commit drops the partial commit without an error flag — the property allows it (prefix of whole commits)",
     ],
-    'level_text': "Lean theorems over the byte-exact wire model: every primitive, buffer, commit-buffer and commit decoder fails on every strict prefix of an encoding (never ok; never confused with EOF when the cut is inside a compressed frame); Log.Range over any cut of a log delivers exactly the first k whole commits, in order, k = number of commits whose encoding ends before the cut — never part of a commit; full log round trip. Decoders are total functions (no panic, no hang in the model). Tied to the code by cutting real snapshot streams (with and without commits recorded during the snapshot, several chunks, > 60 KB commits) at every byte / every s2 frame boundary ± 2: Restore must fail or equal the original at a commit boundary (implementation-only oracle with watchdog), and Log.Range's delivered count and error flag are compared with the model on every log cut.",
+    'level_text': "Lean theorems over the byte-exact wire model: every primitive, buffer, commit-buffer and commit decoder fails on every strict prefix of an encoding (never ok; never confused with EOF when the cut is inside a compressed frame); Log.Range over any cut of a log delivers exactly the first k whole commits, in order, k = number of commits whose encoding ends before the cut — never part of a commit; full log round trip; the snapshot state section: every strict prefix of writeState's bytes is rejected by readState, a version other than 1 is rejected. Decoders are total functions (no panic, no hang in the model). Tied to the code by cutting real snapshot streams (with and without commits recorded during the snapshot, several chunks, > 60 KB commits) at every byte / every s2 frame boundary ± 2: Restore must fail or equal the original at a commit boundary (implementation-only oracle with watchdog), and Log.Range's delivered count and error flag are compared with the model on every log cut.",
     'technique': 'Lean 4 proof (prefix-freeness by composition of decoders) + model/implementation correspondence on every cut',
     'design_ref': '§6 C13',
 }
@@ -285,7 +285,7 @@ PROPS['C17'] = {
 
 PROPS['C07'] = {
     'title': 'Restore of a snapshot reproduces the collection exactly',
-    'modules': ['ColumnVerif.Props.C07', 'ColumnVerif.Props.C07skel'],
+    'modules': ['ColumnVerif.Props.C07', 'ColumnVerif.Props.C07wire', 'ColumnVerif.Props.C07skel'],
     'runs': [{'mode': 'store'}],
     'skeleton': True,
     'trusted_base': STORE_TB + [SKEL_TB],
@@ -293,26 +293,27 @@ PROPS['C07'] = {
         "store-level theorem (readState ∘ snapshot through the real Store.commit) is for numeric columns and the fill list; string/record/key/bool columns are proved at column level (restoring a chunk's snapshot buffer into a fresh column reproduces every read of that chunk); enum columns, the key lookup table, index/sorted-index contents after restore and the log tail replay are exercised by the correspondence (indexes: C03's pass lemma applies)",
         "numeric slots are canonical (a present slot holds width bytes): a present empty slot is written zero-padded by the snapshot",
         "'behaves like the original afterwards' (new inserts never overwrite restored rows) follows from the restored fill list being equal bit for bit + C11; it is also checked by continuing the same history on both collections in the correspondence",
-        "byte level of the state stream: C05/C13 wire theorems",
+        "byte level of the state stream: Model/StateWire (encState/readStateRaw) with C07wire.state_roundtrip / state_roundtrip_ops / snapshot_buffers_count, tied byte for byte by the statehash op (FNV of the uncompressed state section, commit ids by rank) in every snapshot cycle; s2 compression is outside the model",
     ],
-    'level_text': "Lean theorems over the executable snapshot model: the state a snapshot writes for a chunk (one insert marker per occupied offset, one Put per present value) applied to a fresh column / fill list reproduces every read and every fill bit of that chunk (numeric, string, record, key, bool; other chunks untouched; no panic); readState of a snapshot is a fold of per-chunk commits, and through the real Store.commit every committed offset of a numeric column reads the same in the restored store and the fill lists agree (identical rows at identical offsets). Tied to the code by differential snapshot→restore→continue cycles over all column kinds incl. enum, bool, record, key, expire, sparse and dense chunks, differing capacities, with a Go-side dump-equality oracle.",
+    'level_text': "Lean theorems over the executable snapshot model: the state a snapshot writes for a chunk (one insert marker per occupied offset, one Put per present value) applied to a fresh column / fill list reproduces every read and every fill bit of that chunk (numeric, string, record, key, bool; other chunks untouched; no panic); readState of a snapshot is a fold of per-chunk commits, and through the real Store.commit every committed offset of a numeric column reads the same in the restored store and the fill lists agree (identical rows at identical offsets); the bytes writeState emits decode (readState) to exactly the written chunk ids and buffers, operation for operation, and every chunk carries exactly `columns` buffers. Tied to the code by differential snapshot→restore→continue cycles over all column kinds incl. enum, bool, record, key, expire, sparse and dense chunks, differing capacities, with a Go-side dump-equality oracle.",
     'technique': 'Lean 4 proof (snapshot buffer round trip at column level; fold of chunk commits at store level) + model/implementation correspondence',
     'design_ref': '§6 C07',
 }
 
 PROPS['C18'] = {
     'title': 'Concurrent use is free of data races and deadlocks',
-    'modules': ['ColumnVerif.Props.C15conc', 'ColumnVerif.Props.C10', 'ColumnVerif.Props.C08', 'ColumnVerif.Props.C18skel'],
+    'modules': ['ColumnVerif.Props.C18', 'ColumnVerif.Props.C15conc', 'ColumnVerif.Props.C10', 'ColumnVerif.Props.C08', 'ColumnVerif.Props.C18skel'],
     'runs': [{'mode': 'stress', 'race': True}, {'mode': 'sched'}],
     'skeleton': True,
     'trusted_base': CONC_TB + ["the Go race detector (sampling: it reports only races that occur in the run) and a no-progress watchdog are the observation of the runtime behaviour"],
     'assumptions': [
         "PARTIAL: absence of memory-level races is observed by the race detector on the executed workloads, not proved; the theorems cover the latch protocol of the modelled protocol functions only",
         "races present on the unchanged tree are finding D19 (identified by racing pair); any other pair is reported",
+        "the termination theorems are about the modelled latch protocol (one chunk latch at a time, straight-line sections); sync.RWMutex writer preference, the collection lock, the log mutex and user callbacks are outside the machines (writer starvation by an unbounded stream of readers is possible in the model and bounded by r in the theorem)",
         "observation O3: a callback that takes a second read latch on the same shard (e.g. QueryAt inside Range) can deadlock against a waiting writer (sync.RWMutex is writer-preferring); outside the property's mix, recorded in DESIGN.md",
     ],
-    'level_text': "PARTIAL. Lean theorems (small-step machines, every schedule): the chunk latch is exclusive among writers and excludes readers, a snapshot's chunk read excludes the chunk's writer, every access of the modelled commit / read / snapshot protocol to a chunk's columns happens under that latch; the regenerated skeleton establishes for the current source which calls sit inside which lock (latch around the commit closure, RLock around reader callbacks with the row's own chunk, collection lock around every fill-list access, log mutex shared by Append/Range/Copy, key table lock). Runtime: the harness built with -race runs writers, point reads, filtered iteration, bulk inserts/deletes across chunk boundaries with offset re-use, snapshot+restore into other collections, index creation and the vacuum in real parallelism; every race report is reduced to its pair of top frames inside /repo and compared with the listed pairs of D19; a watchdog flags any worker or controlled schedule that never completes.",
-    'technique': 'Lean 4 proof (latch-protocol invariants) + regenerated protocol skeleton + race detector / watchdog runs; memory-level race freedom not proved',
+    'level_text': "PARTIAL. Lean theorems (small-step machines, every schedule): the chunk latch is exclusive among writers and excludes readers, a snapshot's chunk read excludes the chunk's writer, every access of the modelled commit / read / snapshot protocol to a chunk's columns happens under that latch; termination of the protocol in both machines for every schedule: no reachable world with unfinished work is stuck (no_deadlock), a waiting thread only ever waits for a thread that is inside a latch section and can run, and nobody waits while holding a latch (blocker_runs, no_wait_chain: no waits-for cycle exists), and every execution of finitely many transactions, r reads and one snapshot takes at most 9·Σ|todo| + 4r (resp. exactly 7·Σ|todo| + |chunks| + 3) steps (bounded_runs: no livelock); the regenerated skeleton establishes for the current source which calls sit inside which lock (latch around the commit closure, RLock around reader callbacks with the row's own chunk, collection lock around every fill-list access, log mutex shared by Append/Range/Copy, key table lock). Runtime: the harness built with -race runs writers, point reads, filtered iteration, bulk inserts/deletes across chunk boundaries with offset re-use, snapshot+restore into other collections, index creation and the vacuum in real parallelism; every race report is reduced to its pair of top frames inside /repo and compared with the listed pairs of D19; a watchdog flags any worker or controlled schedule that never completes.",
+    'technique': 'Lean 4 proof (latch-protocol invariants, deadlock freedom and step bounds for every schedule) + regenerated protocol skeleton + race detector / watchdog runs; memory-level race freedom not proved',
     'design_ref': '§6 C18',
 }
 
